@@ -181,7 +181,7 @@ def run(ctx: Context) -> None:
     # R19.5 shared with C03: ravel flattens the convention's dimensions in the convention's order
     from . import c03
     from .common import share_obligations
-    share_obligations(ctx, c03, {'R03.1'}, 'R19.5',
+    share_obligations(ctx, c03, {'R03.1', 'R03.9'}, 'R19.5',
                       only=lambda ob: 'DimensionConvention.ravel' in ob.function or 'ravel_dimensions' in ob.function or 'move_dimensions_to_end' in ob.function)
 
 
